@@ -705,19 +705,18 @@ fn encode_genotype_str(genotype: &str) -> io::Result<Vec<i8>> {
 
 fn encode_genotype(genotype: &dyn Genotype) -> io::Result<Vec<i8>> {
     fn encode(position: Option<usize>, phasing: Phasing) -> io::Result<i8> {
-        let i = if let Some(position) = position {
-            i8::try_from(position).map_err(|e| io::Error::new(io::ErrorKind::InvalidData, e))?
-        } else {
-            return Ok(0);
+        // § 6.3.3 "Type encoding": `(allele + 1) << 1 | phased`, where a missing allele is -1.
+        let i = match position {
+            Some(position) => position
+                .checked_add(1)
+                .and_then(|n| n.checked_mul(2))
+                .ok_or_else(|| io::Error::from(io::ErrorKind::InvalidData))?,
+            None => 0,
         };
 
-        let mut n = (i + 1) << 1;
+        let n = if phasing == Phasing::Phased { i | 0x01 } else { i };
 
-        if phasing == Phasing::Phased {
-            n |= 0x01;
-        }
-
-        Ok(n)
+        i8::try_from(n).map_err(|e| io::Error::new(io::ErrorKind::InvalidData, e))
     }
 
     genotype
